@@ -297,3 +297,63 @@ def users_of_compatible(ctx):
     both = ('pobj.datatype', 'dt') in dirs and ('dt', 'pobj.datatype') in dirs
     ctx.check(both, f'{p.qualname}:both directions checked for writable parameters', p.node, 'pobj.datatype.compatible(dt) and dt.compatible(pobj.datatype)',
               f'proxy consistency check only tests {sorted(dirs)}', p)
+
+
+def _grid_quotients(m):
+    """int(...) calls in ScaledInteger whose argument divides by self.scale"""
+    ci = m.cls(f'{DT}.ScaledInteger')
+    out = []
+    for f in ci.methods.values():
+        for c in calls_in(f.node):
+            if dotted(c.func) == 'int' and c.args:
+                a = c.args[0]
+                if any(isinstance(x, ast.BinOp) and isinstance(x.op, ast.Div) and src(x.right) == 'self.scale' for x in ast.walk(a)):
+                    out.append((f, c))
+    return out
+
+
+@rule('C03.R5', min_instances=3)
+def grid_quotient_is_rounded(ctx):
+    """every conversion of a scaled value to its integer grid index is int(round(x / self.scale)), never a truncation"""
+    m = ctx.m
+    sites = _grid_quotients(m)
+    if not sites:
+        raise AnchorMissing('no int(... / self.scale) conversion found in ScaledInteger')
+    for f, c in sites:
+        ctx.analysed(f)
+        a = c.args[0]
+        ok = isinstance(a, ast.Call) and dotted(a.func) == 'round'
+        ctx.check(ok, f'{f.qualname}:grid index is rounded', c, 'int(round(x / self.scale))',
+                  f'`{src(c)}` truncates the quotient: a value exactly on the grid whose float quotient is one ulp below the integer '
+                  '(0.7 / 0.1 == 6.999999999999999) is mapped to the next lower grid index - exported limits and values are off by one step', f)
+
+
+@rule('C03.R6', min_instances=1)
+def int_range_into_enum_checks_every_value(ctx):
+    """IntRange.compatible: for an enum / bool target every integer of the range is offered to the target"""
+    m = ctx.m
+    f = m.method(f'{DT}.IntRange', 'compatible', inherited=False)
+    ctx.analysed(f)
+    branches = [n for n in body_walk(f.node) if isinstance(n, ast.If) and 'EnumType' in src(n.test) and 'isinstance' in src(n.test)]
+    if not branches:
+        raise AnchorMissing('enum branch of IntRange.compatible not found')
+    p = f.node.args.args[1].arg
+    for n in branches:
+        full = False
+        for loop in [x for st in n.body for x in walk_local(st) if isinstance(x, ast.For)]:
+            it = loop.iter
+            if isinstance(it, ast.Call) and dotted(it.func) == 'range' and len(it.args) == 2 and src(it.args[0]) == 'self.min' and \
+                    src(it.args[1]).replace(' ', '') in ('self.max+1', '1+self.max'):
+                lv = src(loop.target)
+                if any(isinstance(c.func, ast.Name) and c.func.id == p and c.args and src(c.args[0]) == lv for c in calls_in(loop)):
+                    full = True
+        calls = [c for st in n.body for c in calls_in(st) if isinstance(c.func, ast.Name) and c.func.id == p]
+        endpoints_only = bool(calls) and all(c.args and src(c.args[0]) in ('self.min', 'self.max') for c in calls)
+        construct = f'{f.qualname}:every integer of the range is checked against the enum'
+        if full:
+            ctx.ok(construct, n, 'for i in range(self.min, self.max + 1): other(i)', f)
+        elif endpoints_only:
+            ctx.bad(construct, n, 'only the limits of the range are offered to the enum / bool target: an enum with gaps whose limits are '
+                    'members (IntRange(0, 2) into EnumType(a=0, c=2)) is declared compatible although 1 is not a member', f)
+        else:
+            ctx.undecided(construct, n, 'form of the membership check not recognised', f)
